@@ -7,3 +7,4 @@ import VK.Props.C08Scored
 import VK.Props.C08Random
 import VK.Props.C08NeutralPairwise
 import VK.Props.C08NeutralDictator
+import VK.Props.C08CandOrderSTV
